@@ -361,7 +361,7 @@ class PG:
             for m, lits in self.edges[n] or []:
                 if assume and any(contradicts(self.facts, a, l) for a in assume for l in lits):
                     continue
-                h2 = True if (lits and ok_edge(lits)) else hout
+                h2 = True if (lits and (ok_edge(lits, bi) if getattr(ok_edge, "with_block", False) else ok_edge(lits))) else hout
                 s2 = (m, h2)
                 if s2 not in seen:
                     seen[s2] = st
